@@ -407,22 +407,60 @@ def check_disjoint_set(fx, rep):
         mutated = T.mutated_locals(root)
         finds = find_results(root, mutated)
         n_w = 0
+        # the value find() answers with: a recursive result, or (iterative form) the local it returns at the end - the top of the walk
+        ret_l = None
+        tail = root
+        while isinstance(tail, dict) and tail.get("k") in ("Block", "DropTemps", "Use"):
+            tail = tail["block"].get("expr") if tail.get("k") == "Block" else tail.get("e")
+        if isinstance(tail, dict):
+            ret_l = F.local_of(F.strip(tail))
+        # locals that walk the chain: initialised from the queried value (clone) and only ever re-assigned a stored parent
+        param_l = next((p_["local"] for p_ in f["hir"]["params"] if p_.get("p") == "Bind" and p_.get("name") != "self"), None)
+        walkers = {param_l}
+        for m, _ in F.walk(root):
+            if m.get("s") == "Let" and "init" in m and m["pat"].get("p") == "Bind":
+                init = F.strip(m["init"])
+                while init.get("k") == "MethodCall" and init["method"] in ("clone", "to_owned"):
+                    init = F.strip(init["recv"])
+                if F.local_of(init) == param_l:
+                    walkers.add(m["pat"]["local"])
+
+        def base_local(e):
+            e = F.strip(e)
+            while e.get("k") in ("MethodCall",) and e["method"] in ("clone", "to_owned"):
+                e = F.strip(e["recv"])
+            while e.get("k") in ("AddrOf", "Unary"):
+                e = F.strip(e["e"])
+            return F.local_of(e)
+
         for n, ps in F.calls(root):
             if n.get("k") == "MethodCall" and n["method"] == "insert" and field_of_self(T.term(n["recv"], T.Env(), mutated), reps):
                 n_w += 1
-                env = T.env_at(ps, n, mutated)
                 key = T.term(n["args"][0], T.Env(), mutated)
                 val = T.term(n["args"][1], T.Env(), mutated)
-                val_l = F.local_of(n["args"][1])
-                key_is_param = key[0] == "local" and key[2] == "value"
-                ok = key_is_param and (val_l in finds or (val[0] == "local" and val[2] == "value"))
+                kl, vl = base_local(n["args"][0]), base_local(n["args"][1])
+                # a self-link is the registration of an element that has no entry yet: it sits on the not-found side of the look-up
+                # (a `None` arm, or the else of `if let Some(..) = reps.get(..)`)
+                import json as _json
+
+                not_found = False
+                for anc, akey in ps:
+                    if isinstance(anc, dict) and "pat" in anc and "body" in anc and isinstance(anc["pat"], dict):
+                        pj = _json.dumps(anc["pat"])
+                        if '"None"' in pj or "::None" in pj:
+                            not_found = True
+                    if isinstance(anc, dict) and anc.get("k") == "If" and akey == "else" and "Some" in _json.dumps(anc.get("cond", {}))[:2000]:
+                        not_found = True
+                self_link = kl is not None and kl == vl and kl in walkers and not_found
+                compress = kl in walkers and vl is not None and (vl in finds or (vl == ret_l and vl != kl))
+                ok = self_link or compress
                 rep.oblige(
                     ok,
                     "R19.4",
                     f"find-write#{n_w}",
                     F.loc(n["span"]),
-                    f"find() rewrites a parent link with `{T.short(val)}`: only the recursive find result (path compression) or a self-link for a new element keeps the partition intact",
-                    sample={"rule": "R19.4", "write": f"reps[{T.short(key)}] = {T.short(val)}", "at": F.loc(n["span"])},
+                    f"find() rewrites the parent link of `{T.short(key)}` with `{T.short(val)}`: only the root it answers with (path compression of a node on the walked chain) or a self-link for a new element keeps the partition intact",
+                    sample={"rule": "R19.4", "write": f"reps[{T.short(key)}] = {T.short(val)}", "kind": "self-link" if self_link else "compression", "at": F.loc(n["span"])},
                 )
         rep.floor("R19.4", n_w, 1, "parent-link writes in find()")
         # an element that was never inserted is registered (as its own representative) the first time it is looked up:
